@@ -57,6 +57,9 @@ type Inner struct {
 }
 
 // Shapes holds one struct field per supported Go shape.
+type Level8 uint8
+type Blob8 []byte
+
 type Shapes struct {
 	Bool      bool
 	Int       int
@@ -86,6 +89,9 @@ type Shapes struct {
 	Color     Color
 	Strings   []string
 	NilStrs   []string
+	Levels    []Level8 // a list of a named uint8: advertised as a list, not as the bytes scalar
+	NamedBlob Blob8    // a named byte slice: likewise a list of uint8
+	Int32s    []int32
 	PStrings  []*string
 	Leaf      *Leaf
 	NilLeaf   *Leaf
@@ -119,6 +125,7 @@ func NewShapes() *Shapes {
 		Leaf: l1, Inner: Inner{Flag: true, N: 3}, Leaves: []*Leaf{l1, nil, l2}, InnerList: []Inner{{N: 1}, {N: 2}},
 		Either: &Either{Leaf: l2}, Eithers: []*Either{{Leaf: l1}, {Other: &Other{Code: "c", Color: Red}}, nil},
 		TM: TM{"v"}, PTM: &PTM{"p"}, Colors: []Color{Red, Green},
+		Levels: []Level8{1, 2, 200}, NamedBlob: Blob8{7, 8}, Int32s: []int32{-1, 5},
 	}
 }
 
